@@ -296,6 +296,8 @@ func init() {
 		checkEvaluatorPipeline(r, prog, a, "c18") // what Evaluate runs with is what CreateEvaluator was given (an unknown value of nil is an unknown value)
 		r.importing = "C15"
 		checkEngineInvariants(r, prog, "c15") // every expression of the language is an expression: the engine reads the table as written, any character included
+		r.importing = "C16"
+		checkLiteralFidelity(r, ga) // the literal compared is the literal written: the quoted string decoded, a bare word as the selector it spells
 		r.importing = ""
 		r.Technique = "producer/consumer exhaustiveness between the grammar's actions (constant and type inference) and the evaluator's dispatch (abstract execution per node type and operator); the rule sets of C02–C07 re-evaluated as the semantic skeleton of the statement"
 		r.Explain = "Agreement with an independent interpreter over all expressions × all data is a run-time relation and is NOT decided. Decided, as structural necessary conditions: every (node type, operator constant) the parser's actions can produce reaches a real handler in the evaluator (never the `Invalid AST node` fallback); every operator/binding-mode constant the grammar uses is declared and each binding mode sets exactly the names the evaluator binds; the tree evaluated is the tree parsed; and each clause of the statement's semantics — selectors walk the datum through one gateway by path parts (C07, C05), each operator compares in the value's own type (C02) with exact complements (C04) and the documented absent-key table (C05), not/and/or/any/all combine left to right (C03, C06) — holds by the imported rule sets, whose obligations are listed as shared."
